@@ -6,6 +6,7 @@
     getc <int>                               -> <u32>
     pow <hash32 hex> <bits>                  -> 0|1
     core <u32>                               -> <negative 0|1> <overflow 0|1>
+    cons <mainnet|testnet3|testnet4>         -> maxbits maxvalue bip34 bip65 bip66 csv segwit taproot (as regenerated from NewChainExt)
     reset                                    -> ok
     node <parent idx|-1> <height> <ts> <bits> -> <idx>
     gnwr <idx> <ts> <testnet> <testnet4> <maxbits> <maxvalue>   -> ok <u32> | panic
@@ -111,6 +112,13 @@ def step (s : St) (toks : List String) : St × String :=
   | ["core", c] => reply do
       let c ← c.toNat?
       pure s!"{Proto.boolStr (coreNegative c)} {Proto.boolStr (coreOverflow c)}"
+  | ["cons", net] =>
+    -- the consensus parameters as the translator read them from NewChainExt (Gen/ConsensusConsts.lean)
+    open GocoinV.Gen.ConsensusConsts in
+    if net == "mainnet" then (s, s!"{mainnet_MaxPOWBits} {MaxPOWValue} {mainnet_BIP34Height} {mainnet_BIP65Height} {mainnet_BIP66Height} {mainnet_Enforce_CSV} {mainnet_Enforce_SEGWIT} {mainnet_Enforce_Taproot}")
+    else if net == "testnet3" then (s, s!"{testnet3_MaxPOWBits} {MaxPOWValue} {testnet3_BIP34Height} {testnet3_BIP65Height} {testnet3_BIP66Height} {testnet3_Enforce_CSV} {testnet3_Enforce_SEGWIT} {testnet3_Enforce_Taproot}")
+    else if net == "testnet4" then (s, s!"{testnet4_MaxPOWBits} {MaxPOWValue} {testnet4_BIP34Height} {testnet4_BIP65Height} {testnet4_BIP66Height} {testnet4_Enforce_CSV} {testnet4_Enforce_SEGWIT} {testnet4_Enforce_Taproot}")
+    else bad
   | ["reset"] => ({}, "ok")
   | ["node", p, h, t, b] =>
     match p.toInt?, h.toNat?, t.toNat?, b.toNat? with
